@@ -356,7 +356,7 @@ with p_args (f : nat) (q : bool) (ts : list token) {struct f} : option (list syn
 Definition parse (s : str) : option syn :=
   match lex s with
   | None => None
-  | Some ts => match p_ann (3 * length ts + 1) false ts with
+  | Some ts => match p_ann (4 * length ts) false ts with
                | Some (y, []) => Some y
                | _ => None
                end
